@@ -826,6 +826,12 @@ class NetworkGraph(AbstractBaseIR):
                         w_1d = weight.squeeze(axis=1)
                         args[w_str] = {'vtype': 'constant', 'value': w_1d, 'dtype': 'float', 'shape': w_1d.shape}
                         eqs.append(f"{t_str} = {w_str} * {s_str}")
+                    elif weight.shape[0] == 1:
+                        # a single target unit is a scalar at runtime as well: sum the weighted sources instead of
+                        # forming the length-1 vector that the matrix product would give
+                        w_1d = weight.squeeze(axis=0)
+                        args[w_str] = {'vtype': 'constant', 'value': w_1d, 'dtype': 'float', 'shape': w_1d.shape}
+                        eqs.append(f"{t_str} = vsum({w_str} * {s_str})")
                     else:
                         eqs.append(f"{t_str} = matvec({w_str}, {s_str})")
                 else:
@@ -990,6 +996,11 @@ class NetworkGraph(AbstractBaseIR):
                     # result that numpy's dot gives for a 2D matrix times a scalar.
                     weight_mat = weight_mat.squeeze(axis=1)
                     eq = f"{t_str_final} = {w_str} * {s_str_final}"
+                elif len(tidx_unique) == 1:
+                    # Single target: the product of a (1, n_sources) matrix with the source vector is a vector of
+                    # length 1, which cannot be stored in the scalar slot of the target. Sum the weighted sources.
+                    weight_mat = weight_mat.squeeze(axis=0)
+                    eq = f"{t_str_final} = vsum({w_str} * {s_str_final})"
                 else:
                     eq = f"{t_str_final} = matvec({w_str}, {s_str_final})"
                 args[w_str] = {'vtype': 'constant', 'value': weight_mat, 'dtype': 'float', 'shape': weight_mat.shape}
